@@ -34,7 +34,7 @@ LN = ["LA", "LB", "LC", "LD", "", "la", "LA "]  # the library accepts the empty 
 # case twin; empty name; names that differ from another only by surrounding white space (trailing
 # blank / newline, leading tab: none of them can be confused with the ", " of the printed form)
 MN = ["pk.m1", "pk.m2", "pk.m3", "pk.sub.m4", "q", "pk", "pk.M1", "", "pk.m1 ", "pk.m2\n", "\tpk.m3"]
-RN = ["^pk\\.r1.*", "^pk\\.r2.*", ".*r3$"]
+RN = ["^pk\\.r1.*", "^pk\\.r2.*", ".*r3$", "pk.m3", "q"]  # the last two: patterns that are plain names
 VOCAB = sorted(set(x for x in LN + MN + RN if x), key=lambda t: (-len(t), t))
 
 MAXLEN = 6
